@@ -882,6 +882,73 @@ def sharded_mismatches(ck, name, header, cases, budget=1500, timeout=1500):
     return sorted(bad)
 
 
+def linear_case(seq, two=False, fast=False):
+    """one Coq case for one operation sequence (observations after every step)"""
+    it = Interner()
+    t = []
+    if two:
+        steps = run_world2(seq)
+        for (r, op), (out, ob) in reversed(list(zip(seq, steps))):
+            t = [coq_node(r, op, out, ob, (0, 1), t, it)]
+        return f"KRun SUv2 {coq_list(t)}", it.defs, len(seq)
+    steps, _ = run_sequence(seq, fast=fast)
+    for op, (out, ob) in reversed(list(zip(seq, steps))):
+        t = [coq_node(0, op, out, ob, (0,), t, it)]
+    return f"KRun SUv {coq_list(t)}", it.defs, len(seq)
+
+
+def subtree_sequences(prefix, alphabet, depth, two=False):
+    """every operation sequence of the case rooted at `prefix` (same pruning as the exploration)"""
+    out = []
+
+    def go(seq):
+        out.append(list(seq))
+        if len(seq) >= depth:
+            return
+        if two:
+            steps = run_world2(seq)
+            res, ob = steps[-1]
+            if res[0] == "invalid":
+                return
+            for r, op in alphabet:
+                if op[0] in ("exit", "raise") and not ob["regs"][r]["frames"]:
+                    continue
+                go(seq + [(r, op)])
+        else:
+            steps, _ = run_sequence(seq, fast=len(seq) > 2)
+            res, ob = steps[-1]
+            if res[0] == "invalid":
+                return
+            for op in alphabet:
+                if op[0] in ("exit", "raise") and not ob["regs"][0]["frames"]:
+                    continue
+                go(seq + [op])
+
+    for i in range(1, len(prefix)):
+        out.append(list(prefix[:i]))
+    go(list(prefix))
+    return out
+
+
+def pinpoint(ck, header, desc):
+    """shortest operation sequence of a disagreeing case on which model and implementation differ"""
+    if desc.get("random"):
+        ops = [op_unjson(o) for o in desc["ops"]]
+        seqs, two = [ops[:i] for i in range(1, len(ops) + 1)], False
+    elif desc.get("two_registries"):
+        pre = [(r, op_unjson(o)) for r, o in desc["prefix"]]
+        seqs, two = subtree_sequences(pre, ALPHABET2, desc["depth"], two=True), True
+    else:
+        pre = [op_unjson(o) for o in desc["prefix"]]
+        seqs, two = subtree_sequences(pre, ALPHABET[desc["alphabet"]], desc["depth"]), False
+    cases = [linear_case(q, two) for q in seqs]
+    bad = sharded_mismatches(ck, "c12_pin", header, cases)
+    if not bad:
+        return None, two
+    best = min(bad, key=lambda i: len(seqs[i]))
+    return seqs[best], two
+
+
 def run(ck):
     import multiprocessing as mp
     plan = PLAN[ck.tier]
@@ -967,11 +1034,22 @@ def run(ck):
         ck.violation(key, desc, {"ops": ops, "two_registries": key.startswith("shared-context:interference")})
     if bad:
         term, defs, n, desc = cases[bad[0]]
-        shown = ck.coq_show(header + "\n".join(defs[k] for k in sorted(defs)) + "\n", f"c12_bad ({term})")
+        seq, two = pinpoint(ck, header, desc)
+        shown = ""
+        if seq is not None:
+            ops_txt = coq_list([f"({coq_bool(r == 1)}, {coq_op(o)})" for r, o in (seq if two else [(0, o) for o in seq])])
+            shown = ck.coq_show(header, f"model_obs {'SUv2' if two else 'SUv'} {ops_txt} false")
+            w = World(two)
+            for x in seq:
+                last = w.do(*(x if two else (0, x)))
+            impl = (last, w.obs(regs=(0, 1) if two else (0,), probes=PROBES_W2 if two else PROBES))
+            w.close()
         if all(ck._match_known(k) for k in findings):
             ck.violation("correspondence", "model and implementation disagree; no (new) property oracle failed",
-                         {"first_disagreeing_case": desc, "n_disagreeing_cases": len(bad),
-                          "coq_first_bad (path of child indices, item, model outcome)": shown}, no_input=True)
+                         {"first_disagreeing_case": desc, "n_disagreeing_cases": len(bad), "correspondence": True,
+                          "two_registries": two, "ops": None if seq is None else ([[r, op_json(o)] for r, o in seq] if two else [op_json(o) for o in seq]),
+                          "implementation (last outcome, observations of registry 1)": None if seq is None else str(impl),
+                          "model (active, layers, caches, answers of registry 1)": shown}, no_input=True)
         ck.broken.append(f"correspondence Model.CtxStateRun.c12_ok: {len(bad)} disagreeing cases, first: {json.dumps(desc)[:300]}")
 
 
@@ -982,6 +1060,16 @@ def replay(ck, path):
     ops = rp.get("ops")
     if not ops:
         return 0
+    if rp.get("correspondence"):
+        qk, _, _ = detect_quirks(ck)
+        header = (coq_setup(qk) + "Definition SUv2 := SU (su_qk SUv) (su_cfgs SUv) (su_bases SUv) (su_objs SUv) ["
+                  + "; ".join(coq_probe(p) for p in PROBES_W2) + "].\n")
+        two = bool(rp.get("two_registries"))
+        seq = [(r, op_unjson(o)) for r, o in ops] if two else [op_unjson(o) for o in ops]
+        bad = sharded_mismatches(ck, "c12_replay", header, [linear_case(seq, two)])
+        print("defect switches:", qk)
+        print("model and implementation", "DISAGREE" if bad or bad is None else "agree", "on", seq)
+        return 1 if bad or bad is None else 0
     if rp.get("two_registries"):
         seq = [(r, op_unjson(o)) for r, o in ops]
         steps = run_world2(seq)
